@@ -12,6 +12,30 @@ CLAIMS = {
                      'published bit layouts (5-bit pack isotope code, matcher word III bits 46..62), CachedMethods shim. 19 reference '
                      'isotopes missing from the nuclide tables are recorded in known_findings.jsonl.',
                 technique='finite table lemmas by complete enumeration (engine T)'),
+    'C12': dict(level='proof', engine='pysym',
+                text='The two permutation tables are checked key by key against permutation parity / single-end exchange; the three sign '
+                     'translators are executed symbolically (real function objects, symbolic pairwise-distinct atom numbers, symbolic sign, every '
+                     'hydrogen slot shape) and every path is discharged by z3; the geometric sign functions are proved antisymmetric / mirror-odd '
+                     'over the reals. Agreement of SMILES marks and wedges with RDKit is a bounded stand-in (checks/b12.py), not proof.',
+                note='Trusted: CPython, z3 (BV + nlsat), pysym proxies; floats treated as reals; shapes (3/4 substituents, hydrogen slots) '
+                     'enumerated; RDKit as external oracle in the bounded part.',
+                technique='symbolic execution of the real functions with per-path SMT obligations + table lemmas (+ bounded RDKit comparison)'),
+    'C08': dict(level='proof', engine='pysym',
+                text='The real __eq__ of QueryElement, AnyElement, ListElement, AnyMetal, QueryBond and Bond are executed on proxy attribute '
+                     'values (symbolic atomic numbers on both sides, symbolic subsets for set-valued query attributes) and every path is '
+                     'discharged against an independently written predicate. SMARTS parsing and matching on molecules are a bounded stand-in.',
+                note='Trusted: CPython, z3, pysym proxies, reference non-metal list; assumption A-ring (ring-size sets used only through '
+                     'membership/disjointness). calc_labels and SMARTS text are covered by the bounded part (checks/b08.py).',
+                technique='symbolic execution of the real predicates with per-path SMT obligations (+ bounded SMARTS enumeration)'),
+    'C09': dict(level='proof', engine='pysym+cyx',
+                text='Per atom, bond and closure: the words built by the real regions of _cython_compiled_structure/_cython_compiled_query '
+                     '(cut from the current AST, run on proxies, all paths) equal the published layout; on layout words the mask test equals the '
+                     'documented clauses (which C08 proves __eq__ to be); the test expressions of the de-cythonised _isomorphism.pyx equal that '
+                     'mask test. The search skeleton of the compiled generator is compared with the Python matcher on bounded pairs only.',
+                note='Trusted: CPython, z3, pysym + LoopCut, the syntactic Cython translation (DESIGN 1.4), struct layout of x86-64. Documented '
+                     'layout limitations (unknown H count, Lv/Ts/Og merged, rings > 65, query H > 4) are probed and listed as known findings. '
+                     'Quick tier runs 6 of the 16 emptiness shapes of the query-word obligation, thorough all 16.',
+                technique='symbolic execution of AST-extracted regions + bit-level SMT lemmas over the de-cythonised matcher'),
 }
 
 NOT_BUILT = 'check under construction in this session - not claimed until its command exists and passes on the unchanged tree'
